@@ -9,6 +9,16 @@ NAMES = ['a', 'b', 'c', 'd.txt', 'e', 'é', 'sp ace', 'L1', 'L2', 'keep.tmp', 'n
 FILTER_SETS = [[], [], [], ['-.*\\.txt'], ['-.*\\.txt'], ['-.*y'], ['-b'], ['+a(/.*)?', '+c(/.*)?'], ['-.*/c'], ['+.*', '-.*\\.tmp'], ['-é', '-sp ace'], ['-a/.*'], ['-a', '+a/b']]
 
 
+def file_bytes(rng, n=None):
+    """random bytes mostly; also degenerate contents (all zero, zero tail, 0xff)"""
+    n = rng.choice(SIZES) if n is None else n
+    r = rng.random()
+    if r < 0.75: return l3.content(rng.random(), n)
+    if r < 0.87: return bytes(n)
+    if r < 0.95: return l3.content(rng.random(), n // 3) + bytes(n - n // 3)
+    return b'\xff' * n
+
+
 def link_targets(base, decoys=True):
     t = ['a', './a', 'a//b', 'a/', 'nowhere', '.', '..', 'L1', 'a\\b', '../b', 'a/./b/', '/abs/nowhere', '/', './/x///y', '../../..', 'b/../a']
     if decoys:
@@ -56,7 +66,7 @@ def gen_entries(rng, base, max_entries, link_prob=0.2, decoys=True, nonutf8=Fals
                 tg = rng.choice([b'\xff\xfe', b'a/\xe9', b'caf\xe9/x'])
             ents.append((p, 'L', tg))
         else:
-            ents.append((p, 'F', l3.content(rng.random(), rng.choice(SIZES)), rng.choice(MTIMES)))
+            ents.append((p, 'F', file_bytes(rng), rng.choice(MTIMES)))
     return ents
 
 
@@ -74,8 +84,8 @@ def mutate(rng, base, src_ents, decoys=True):
             dropped.append(p)                                 # missing on the destination
         elif r < 0.7 and e[1] == 'F':
             k = rng.random()
-            if k < 0.4: out.append((p, 'F', l3.content(rng.random(), rng.choice(SIZES)), e[3] + rng.choice([-1, 1, 10 ** 9, -10 ** 9]) if e[3] > 10 ** 9 else e[3] + 1))
-            else: out.append((p, 'F', l3.content(rng.random(), rng.choice(SIZES)), e[3]))       # same time, other bytes: deemed up to date
+            if k < 0.4: out.append((p, 'F', file_bytes(rng), e[3] + rng.choice([-1, 1, 10 ** 9, -10 ** 9]) if e[3] > 10 ** 9 else e[3] + 1))
+            else: out.append((p, 'F', file_bytes(rng), e[3]))       # same time, other bytes: deemed up to date
         else:
             # kind swap
             dropped.append(p)
@@ -85,7 +95,7 @@ def mutate(rng, base, src_ents, decoys=True):
                 for q in gen_entries(rng, base, 3, decoys=decoys):
                     out.append((p + '/' + q[0],) + q[1:])
             elif k == 'F':
-                out.append((p, 'F', l3.content(rng.random(), rng.choice(SIZES)), rng.choice(MTIMES)))
+                out.append((p, 'F', file_bytes(rng), rng.choice(MTIMES)))
             else:
                 out.append((p, 'L', rng.choice(link_targets(base, decoys))))
     have = {e[0] for e in out}
@@ -193,7 +203,7 @@ def gen_case(rng, sb, idx, root_leaf_prob=0.2, link_prob=0.2, filters_ok=True, n
         # a file or symlink as the source root
         c.src_kind = rng.choice(['F', 'L'])
         if c.src_kind == 'F':
-            l3.make_tree(c.src_path, [('', 'F', l3.content(rng.random(), rng.choice(SIZES)), rng.choice(MTIMES))])
+            l3.make_tree(c.src_path, [('', 'F', file_bytes(rng), rng.choice(MTIMES))])
         else:
             l3.make_tree(c.src_path, [('', 'L', rng.choice(link_targets(c.base)))])
         c.src_ents = []
